@@ -1,5 +1,6 @@
 import CRModel.Geom
 import Mathlib.Tactic.Ring
+import Mathlib.Tactic.Tauto
 import Mathlib.Tactic.Linarith
 import Mathlib.Tactic.LinearCombination
 import Mathlib.Algebra.Order.Field.Rat
@@ -279,5 +280,153 @@ theorem inBBox_of_inRing {vs : List Pt} {p : Pt} (h : inRing vs p = true) : inBB
   · by_contra hc
     have := crossings_even_outside vs p (by simpa using hc)
     omega
+
+/-! ### axis-parallel rectangles: ring test = box -/
+
+section axis
+set_option linter.unusedSectionVars false
+variable (a b : Rat) (ha : 0 < a) (hb : 0 < b) (p : Pt)
+include ha hb
+
+theorem ray_left : rayCross ⟨-a, -b⟩ ⟨-a, b⟩ p = true ↔ (-b ≤ p.y ∧ p.y < b ∧ p.x < -a) := by
+  have hbb : -b < b := by linarith
+  simp only [rayCross, if_pos hbb, Bool.and_eq_true, bne_iff_ne, ne_eq, decide_eq_decide, decide_eq_true_eq]
+  have e : (-a - -a : Rat) = 0 := by ring
+  rw [e, mul_zero]
+  constructor
+  · rintro ⟨h1, h2⟩
+    have h3 : p.x - -a < 0 := by
+      by_contra hc; have := mul_nonneg (not_lt.mp hc) (by linarith : (0:Rat) ≤ b - -b); linarith
+    refine ⟨?_, ?_, by linarith⟩
+    · by_contra hc; exact h1 ⟨fun _ => by linarith, fun _ => not_le.mp hc⟩
+    · by_contra hc; exact h1 ⟨fun h => absurd h (by linarith), fun h => absurd h hc⟩
+  · rintro ⟨h1, h2, h3⟩
+    refine ⟨fun h => ?_, ?_⟩
+    · have := h.mpr h2; linarith
+    · have := mul_pos (by linarith : (0:Rat) < -a - p.x) (by linarith : (0:Rat) < b - -b); nlinarith
+
+theorem ray_right : rayCross ⟨a, b⟩ ⟨a, -b⟩ p = true ↔ (-b ≤ p.y ∧ p.y < b ∧ p.x < a) := by
+  have hbb : ¬ b < -b := by linarith
+  simp only [rayCross, if_neg hbb, Bool.and_eq_true, bne_iff_ne, ne_eq, decide_eq_decide, decide_eq_true_eq]
+  have e : (a - a : Rat) = 0 := by ring
+  rw [e, mul_zero]
+  constructor
+  · rintro ⟨h1, h2⟩
+    have h3 : p.x - a < 0 := by
+      by_contra hc; have := mul_nonneg (not_lt.mp hc) (by linarith : (0:Rat) ≤ b - -b); nlinarith
+    refine ⟨?_, ?_, by linarith⟩
+    · by_contra hc; exact h1 ⟨fun _ => not_le.mp hc, fun _ => by linarith⟩
+    · by_contra hc; exact h1 ⟨fun h => absurd h hc, fun h => absurd h (by linarith)⟩
+  · rintro ⟨h1, h2, h3⟩
+    refine ⟨fun h => ?_, ?_⟩
+    · have := h.mp h2; linarith
+    · have := mul_pos (by linarith : (0:Rat) < a - p.x) (by linarith : (0:Rat) < b - -b); nlinarith
+
+omit ha hb in
+theorem ray_flat (x1 x2 y : Rat) : rayCross ⟨x1, y⟩ ⟨x2, y⟩ p = false := by
+  simp [rayCross]
+
+theorem seg_left : onSeg ⟨-a, -b⟩ ⟨-a, b⟩ p = true ↔ (p.x = -a ∧ -b ≤ p.y ∧ p.y ≤ b) := by
+  simp only [onSeg, Bool.and_eq_true, decide_eq_true_eq, min_self, max_self,
+    min_eq_left (by linarith : -b ≤ b), max_eq_right (by linarith : -b ≤ b)]
+  constructor
+  · rintro ⟨⟨⟨⟨_, h2⟩, h3⟩, h4⟩, h5⟩; exact ⟨le_antisymm h3 h2, h4, h5⟩
+  · rintro ⟨h1, h2, h3⟩; refine ⟨⟨⟨⟨?_, h1.ge⟩, h1.le⟩, h2⟩, h3⟩; simp only [cross, h1]; ring
+
+theorem seg_right : onSeg ⟨a, b⟩ ⟨a, -b⟩ p = true ↔ (p.x = a ∧ -b ≤ p.y ∧ p.y ≤ b) := by
+  simp only [onSeg, Bool.and_eq_true, decide_eq_true_eq, min_self, max_self,
+    min_eq_right (by linarith : -b ≤ b), max_eq_left (by linarith : -b ≤ b)]
+  constructor
+  · rintro ⟨⟨⟨⟨_, h2⟩, h3⟩, h4⟩, h5⟩; exact ⟨le_antisymm h3 h2, h4, h5⟩
+  · rintro ⟨h1, h2, h3⟩; refine ⟨⟨⟨⟨?_, h1.ge⟩, h1.le⟩, h2⟩, h3⟩; simp only [cross, h1]; ring
+
+theorem seg_top : onSeg ⟨-a, b⟩ ⟨a, b⟩ p = true ↔ (p.y = b ∧ -a ≤ p.x ∧ p.x ≤ a) := by
+  simp only [onSeg, Bool.and_eq_true, decide_eq_true_eq, min_self, max_self,
+    min_eq_left (by linarith : -a ≤ a), max_eq_right (by linarith : -a ≤ a)]
+  constructor
+  · rintro ⟨⟨⟨⟨_, h2⟩, h3⟩, h4⟩, h5⟩; exact ⟨le_antisymm h5 h4, h2, h3⟩
+  · rintro ⟨h1, h2, h3⟩; refine ⟨⟨⟨⟨?_, h2⟩, h3⟩, h1.ge⟩, h1.le⟩; simp only [cross, h1]; ring
+
+theorem seg_bottom : onSeg ⟨a, -b⟩ ⟨-a, -b⟩ p = true ↔ (p.y = -b ∧ -a ≤ p.x ∧ p.x ≤ a) := by
+  simp only [onSeg, Bool.and_eq_true, decide_eq_true_eq, min_self, max_self,
+    min_eq_right (by linarith : -a ≤ a), max_eq_left (by linarith : -a ≤ a)]
+  constructor
+  · rintro ⟨⟨⟨⟨_, h2⟩, h3⟩, h4⟩, h5⟩; exact ⟨le_antisymm h5 h4, h2, h3⟩
+  · rintro ⟨h1, h2, h3⟩; refine ⟨⟨⟨⟨?_, h2⟩, h3⟩, h1.ge⟩, h1.le⟩; simp only [cross, h1]; ring
+
+omit ha hb in
+theorem seg_point (v : Pt) : onSeg v v p = true ↔ (p.x = v.x ∧ p.y = v.y) := by
+  simp only [onSeg, Bool.and_eq_true, decide_eq_true_eq, min_self, max_self]
+  constructor
+  · rintro ⟨⟨⟨⟨_, h2⟩, h3⟩, h4⟩, h5⟩; exact ⟨le_antisymm h3 h2, le_antisymm h5 h4⟩
+  · rintro ⟨h1, h2⟩; refine ⟨⟨⟨⟨?_, h1.ge⟩, h1.le⟩, h2.ge⟩, h2.le⟩; simp only [cross, h1, h2]; ring
+
+/-- Axis-parallel rectangle centred at the origin: the ring test of the exported vertices is the box. -/
+theorem rect_axis_origin :
+    inRing [⟨-a, -b⟩, ⟨-a, b⟩, ⟨a, b⟩, ⟨a, -b⟩, ⟨-a, -b⟩] p = true
+      ↔ (-a ≤ p.x ∧ p.x ≤ a ∧ -b ≤ p.y ∧ p.y ≤ b) := by
+  have c1 := ray_left a b ha hb p
+  have c2 := ray_right a b ha hb p
+  have s1 := seg_left a b ha hb p
+  have s2 := seg_top a b ha hb p
+  have s3 := seg_right a b ha hb p
+  have s4 := seg_bottom a b ha hb p
+  have s5 := seg_point p ⟨-a, -b⟩
+  simp only [inRing, crossings, edges, List.cons_append, List.nil_append, List.zip_cons_cons, List.zip_nil_right,
+    List.any_cons, List.any_nil, Bool.or_false, List.filter_cons, List.filter_nil, ray_flat, Bool.false_eq_true, if_false,
+    Bool.or_eq_true, beq_iff_eq]
+  rw [s1, s2, s3, s4, s5]
+  generalize rayCross ⟨-a, -b⟩ ⟨-a, b⟩ p = r1 at c1 ⊢
+  generalize rayCross ⟨a, b⟩ ⟨a, -b⟩ p = r2 at c2 ⊢
+  cases r1 <;> cases r2 <;> simp only [Bool.false_eq_true, if_false, if_true, List.length_cons, List.length_nil] at c1 c2 ⊢
+  · constructor
+    · rintro ((⟨h1, h2, h3⟩ | ⟨h1, h2, h3⟩ | ⟨h1, h2, h3⟩ | ⟨h1, h2, h3⟩ | ⟨h1, h2⟩) | h)
+      · exact ⟨by linarith, by linarith, by linarith, by linarith⟩
+      · exact ⟨by linarith, by linarith, by linarith, by linarith⟩
+      · exact ⟨by linarith, by linarith, by linarith, by linarith⟩
+      · exact ⟨by linarith, by linarith, by linarith, by linarith⟩
+      · exact ⟨by linarith, by linarith, by linarith, by linarith⟩
+      · exact absurd h (by decide)
+    · rintro ⟨h1, h2, h3, h4⟩
+      left
+      by_cases hy : p.y < b
+      · have hx : ¬ p.x < a := fun hx => c2.mpr ⟨h3, hy, hx⟩
+        exact Or.inr (Or.inr (Or.inl ⟨le_antisymm h2 (not_lt.mp hx), h3, h4⟩))
+      · exact Or.inr (Or.inl ⟨le_antisymm h4 (not_lt.mp hy), h1, h2⟩)
+  · obtain ⟨k1, k2, k3⟩ := c2.mp trivial
+    have hx : ¬ p.x < -a := fun hx => c1.mpr ⟨k1, k2, hx⟩
+    exact ⟨fun _ => ⟨not_lt.mp hx, k3.le, k1, k2.le⟩, fun _ => Or.inr trivial⟩
+  · obtain ⟨k1, k2, k3⟩ := c1.mp trivial
+    exact (c2.mpr ⟨k1, k2, by linarith⟩).elim
+  · obtain ⟨k1, k2, k3⟩ := c1.mp trivial
+    constructor
+    · rintro ((⟨h1, h2, h3⟩ | ⟨h1, h2, h3⟩ | ⟨h1, h2, h3⟩ | ⟨h1, h2, h3⟩ | ⟨h1, h2⟩) | h)
+      · exfalso; linarith
+      · exfalso; linarith
+      · exfalso; linarith
+      · exfalso; linarith
+      · exfalso; linarith
+      · exact absurd h (by decide)
+    · rintro ⟨h1, _, _, _⟩; exfalso; linarith
+
+end axis
+
+/-- Axis-parallel rectangle (orientation 0, i.e. `(c, s) = (1, 0)`) anywhere: the crossing-number test of the ring
+    it exports is the `l`-by-`w` box around its centre. -/
+theorem rect_axis (l w : Rat) (hl : 0 < l) (hw : 0 < w) (ctr p : Pt) :
+    rectContains l w ctr 1 0 p = inBox l w ctr 1 0 p := by
+  have hv : rectVerts l w ctr 1 0 =
+      ([⟨-(l / 2), -(w / 2)⟩, ⟨-(l / 2), w / 2⟩, ⟨l / 2, w / 2⟩, ⟨l / 2, -(w / 2)⟩, ⟨-(l / 2), -(w / 2)⟩] : List Pt).map
+        (·.add ctr) := by
+    simp only [rectVerts, place, Pt.add, List.map_cons, List.map_nil, one_mul, zero_mul, sub_zero, zero_add]
+    simp only [add_comm]
+  have hp : p = (⟨p.x - ctr.x, p.y - ctr.y⟩ : Pt).add ctr := by
+    cases p; simp [Pt.add]
+  unfold rectContains
+  rw [hv]
+  conv_lhs => rw [hp]
+  rw [inRing_add, Bool.eq_iff_iff, rect_axis_origin _ _ (by linarith : (0:Rat) < l / 2) (by linarith : (0:Rat) < w / 2)]
+  simp only [inBox, Bool.and_eq_true, decide_eq_true_eq, one_mul, zero_mul, add_zero, neg_zero, zero_add]
+  tauto
 
 end CR.Geom
